@@ -111,7 +111,20 @@ func (fs *FS) OpenReader(dir string, name string) (types.ReadableFile, error) {
 // about the well-formedness of the file, it may be empty, the wrong size or
 // corrupt in arbitrary ways.
 func (fs *FS) OpenWriter(dir string, name string) (types.WritableFile, error) {
-	return os.OpenFile(filepath.Join(dir, name), os.O_RDWR, os.FileMode(0644))
+	f, err := os.OpenFile(filepath.Join(dir, name), os.O_RDWR, os.FileMode(0644))
+	if err != nil {
+		return nil, err
+	}
+	// The file may have been created by an earlier process that died before its
+	// first commit, in which case its directory entry was never fsynced (Create
+	// defers that to the first Sync). Wrap it the same way so the first Sync
+	// through this handle also fsyncs the parent dir; otherwise entries
+	// acknowledged after a restart could vanish with the file on power loss.
+	return &File{
+		new:  0,
+		dir:  dir,
+		File: *f,
+	}, nil
 }
 
 func syncDir(dir string) error {
